@@ -22,7 +22,8 @@ func GenSwarm(r *core.RNG, pool *Pool) Swarm {
 		BlockInterval: int64(r.Range(5, 60)),
 		Observers:     r.Range(1, 3),
 		DiskChecksum:  true,
-		Namespace:     core.Pick(r, []string{"did:sidetree", "did:ion", "did:orb:test", "did:x"}),
+		// (method-specific ids may carry further colon-separated segments and percent-encoded characters: a domain hint with a port)
+		Namespace: core.Pick(r, []string{"did:sidetree", "did:ion", "did:orb:test", "did:x", "did:sidetree:localhost%3A8080", "did:orb:https%3A%2F%2Fexample.com%2Fservices%2Forb"}),
 	}
 	switch r.Intn(5) {
 	case 0:
